@@ -156,6 +156,46 @@ def _run_one(v, case, scratch, i):
         if not same:
             v.bad(f"not-identical/load_intermediate={li}", "xarray_dataset_from_results and load_xarray_dataset differ",
                   a=str(a)[:400], b=str(b)[:400], **w)
+    # (a) an explicit selection of one MapSpec output must carry the same labelled array as the full dataset does
+    ms_outs = [o for f in case["funcs"] if f["mapspec"] is not None for o in f["outs"]]
+    if ms_outs:
+        o_sel = ms_outs[-1]
+        for li in (True, False):
+            try:
+                with quiet():
+                    sel = load_xarray_dataset(o_sel, run_folder=folder, load_intermediate=li)
+                v.count("single_output_selections")
+                full = datasets[("folder", li)]
+                if o_sel not in sel.variables or o_sel not in full.variables:
+                    v.bad(f"selection:output-missing/load_intermediate={li}", f"load_xarray_dataset({o_sel!r}) has no variable {o_sel}", **w)
+                else:
+                    da_s, da_f = sel[o_sel], full[o_sel]
+                    if da_s.dims != da_f.dims or probes.render(da_s.values) != probes.render(da_f.values):
+                        v.bad(f"selection:differs-from-full-dataset/load_intermediate={li}", f"{o_sel} selected alone has other dims / values than in the full dataset",
+                              alone=str(da_s)[:400], full=str(da_f)[:400], **w)
+                    # the coordinates the output depends on (the full dataset may show further, unrelated ones that merely share a dim)
+                    for r, a in sorted(coord_deps(case)[o_sel]):
+                        names = [str(cn) for cn in da_s.coords if r == str(cn) or (":" in str(cn) and r in str(cn).split(":"))]
+                        if not names:
+                            v.bad(f"selection:coordinate-missing/load_intermediate={li}", f"{o_sel} selected alone lacks the coordinate of input {r} along {a}",
+                                  coords=sorted(map(str, da_s.coords)), **w)
+                        elif names[0] == r and probes.render(da_s.coords[r].values) != probes.render(inputs[r]):
+                            v.bad("selection:coordinate-values-differ", f"coordinate {r} of {o_sel} selected alone differs from the input", **w)
+            except Exception as e:  # noqa: BLE001
+                v.bad(exc_sig(e, "selection-raises"), f"load_xarray_dataset({o_sel!r}) raised {exc_msg(e)}", **w)
+    # (b) the results of THIS run keep describing this run after the folder has served another one
+    if i % 2 == 0:
+        try:
+            with quiet():
+                p.map(mapgen.variant_inputs(inputs, "~later"), run_folder=folder, internal_shapes=mapgen.internal_shapes_arg(case), parallel=False,
+                      storage="file_array")
+                again = xarray_dataset_from_results(inputs, res, p, load_intermediate=True)
+            v.count("datasets_rebuilt_after_a_later_run")
+            if not again.identical(datasets[("results", True)]):
+                v.bad("results-dataset-changed-by-later-run", "xarray_dataset_from_results(inputs, results) changed after the same folder served another run",
+                      before=str(datasets[("results", True)])[:400], after=str(again)[:400], **w)
+        except Exception as e:  # noqa: BLE001
+            v.bad(exc_sig(e, "rebuild-after-later-run"), f"rebuilding the dataset from the earlier results raised {exc_msg(e)}", **w)
     deps = coord_deps(case)
     nontrivial = False
     for li in (True, False):
